@@ -503,7 +503,8 @@ def conforms(octx, tctx, o, c, skip_any_entries=False):
 
 
 def closed_spec(tctx, c):
-    """every name mentioned is defined and no disjunction is empty"""
+    """every name mentioned is defined (an empty disjunction is a specification like any other:
+    nothing conforms to it)"""
     seen, work = set(), [c] + list(tctx.values())
     while work:
         x = work.pop()
@@ -516,8 +517,6 @@ def closed_spec(tctx, c):
         if k == 'A':
             work.append(t[1])
         elif k in 'HO':
-            if k == 'O' and not t[1]:
-                return False
             work.extend(t[1])
         elif k in 'DS':
             work.extend(e[1] for e in t[1])
@@ -750,7 +749,8 @@ def gen_chk(rng, depth, names, allow_named=True):
         n = 2 if p == ('L', 2) else rng.randrange(0, 3)
         return rep(('H', tuple(sub() for _ in range(n))), p, ind)
     if k == 'O':
-        return rep(('O', tuple(sub() for _ in range(rng.randrange(1, 4)))), p if rng.random() < 0.3 else None, ind)
+        nalt = 0 if rng.random() < 0.04 else rng.randrange(1, 4)
+        return rep(('O', tuple(sub() for _ in range(nalt))), p if rng.random() < 0.3 else None, ind)
     keys = rng.sample([K_, L_, b'M'], rng.randrange(0, 3))
     ents = tuple((key, sub(), rng.choice('++?-')) for key in keys)
     if k == 'S':
@@ -911,6 +911,22 @@ DESIGN_WITNESSES = [
     'v - - H(O(m,q),O(m,q,s)) A(t,m6e)',
     'v - - !n R9.0',
     'v - - !_ R9.0',
+    # empty disjunctions: top level, nested, as array element / dict entry / named / under a reference
+    'v - - O() i5',
+    'v - - !{N41}O() i5',
+    'v - - O(O(),i) i5',
+    'v - - O(O(),m) i5',
+    'v - - O(!O(),i) i5',
+    'v - - A(O()) A()',
+    'v - - A(O()) A(i5)',
+    'v - - H(O(),i) A(i5,i5)',
+    'v - - D(4b?:O()) D()',
+    'v - - D(4b?:O()) D(4b:i5)',
+    'v - - D(4b-:O(),*?:O()) D(4c:n)',
+    'v - e=O() A(@e) A(i5)',
+    'v - e=O();t=O(@e,A(@t)) @t A(A(i5))',
+    'v 1.0=i5 - O() R1.0',
+    'v 1.0=A(R1.0) e=O() A(O(@e,A(O()))) R1.0',
     # reference chains with a tail before their cycle
     'v 1.0=R2.0;2.0=R3.0;3.0=R2.0 - n R1.0',
     'v 1.0=R2.0;2.0=R2.0 - i R1.0',
@@ -1010,7 +1026,7 @@ RULE = ('exhaustive small scope: every specification of depth <= 1 over {Any,Int
         'to conform and then mutated 0-2 times. non-trivial = the specification has a compound/named/disjunct node or the object a reference')
 TRUSTED = ['model of pdf_type_check.rs in coq/Model/TypeCheck.v (hand transcription, validated by this correspondence run)',
            'the Python reading of the specification in props/c08.py (cross-checked against Coq conforms_dec on every case)']
-ASSUMPTIONS = ['specifications are closed (every name defined) and have no empty disjunction',
+ASSUMPTIONS = ['specifications are closed (every name defined)',
                'objects compare structurally (LocatedVal ignores locations; streams built by the harness have start = 0)']
 LEVEL_TEXT = ('Coq theorems over all specifications and all object graphs (cyclic included): check_type = Accept <-> the object conforms, '
               'for every well-formed specification (wf_univ: names defined, no empty disjunction), in the reading conforms_skip = greatest-fixed-point '
